@@ -782,6 +782,9 @@ class FakeSocket:
 
     @command((Key(bytes), Int))
     def decrby(self, key, amount):
+        if amount == Int.MIN_VALUE:
+            # Cannot be negated
+            raise SimpleError(msgs.DECR_OVERFLOW_MSG)
         return self.incrby(key, -amount)
 
     @command((Key(bytes),))
